@@ -40,21 +40,23 @@ def report(R, cases, viol):
 
 
 def run(R):
-    R.trusted += ["translator harness/cmd/gen_govhandlers (go/ast; exact statement shapes of SetProposalDurationsProposalHandler.Apply and ProposalRouter.ApplyProposal, anything else is rejected)",
+    R.trusted += ["translator harness/cmd/gen_govhandlers (go/ast; exact statement shapes of SetProposalDurationsProposalHandler.Apply, ProposalRouter.ApplyProposal, and in processProposal the IsQuorum error branch (panic / quorum not reached) and the dynamic-voter block (veto-capable voters from permission 0 / from the allowed addresses); anything else is rejected)",
                   "harness/cmd/c08: the proposal router is rebuilt from six real handlers (five gov ones + spending UpdateSpendingPool with its real dynamic-voter methods) wrapped by a call logger; a registry upsert with hash h9 is made to fail after the real handler wrote (probe of the router's cache); msg server, keepers, EndBlocker, router.ApplyProposal are the real ones",
                   "Model/GovWorld.v: hand-written model of the five probe handlers and of seven network properties, validated by the differential run",
                   "Flocq binary32 (theorem C08_tally_float_exact_refuted_and_partial only) depends on ClassicalDedekindReals.sig_not_dec, ClassicalDedekindReals.sig_forall_dec, FunctionalExtensionality.functional_extensionality_dep, Classical_Prop.classic; the other 19 theorems are closed under the global context"]
     R.assume += ["proposal handlers write only state outside proposals/votes/queues (the model's handler type is A -> outcome A)",
                  "dynamic-voter proposals: spending UpdateSpendingPoolProposal is modelled and exercised (owner accounts only, no owner roles); the distribution / withdraw pool proposals are covered by the lifecycle theorems through the oracles only",
                  "councilor rank bookkeeping (OnCouncilorAct/Absent) and the average-slash argument of handlers are not modelled; durations and block counts stay below 2^31 (no int64/time.Duration wrap-around)",
-                 "a panic inside EndBlocker (property C06) is observed as 'panic' and the block's writes are discarded; the model does the same"]
+                 "a panic inside EndBlocker (property C06; only with the earlier IsQuorum-error-panics shape) is observed as 'panic' and the block's writes are discarded; the model does the same",
+                 "UpdateSpendingPoolProposal.ValidateBasic (quorum within [0,1]) is modelled as in the current tree"]
     if not R.gen("gen_govhandlers", "GovHandlers.v"):
         # the tree is outside the translator's fragment (already a broken obligation): fall back to the
         # last known shapes so that the spec checker can still look for a concrete failing input
         import vlib as V
         open(os.path.join(V.COQ, "Gen", "GovHandlers.v"), "w").write(
             "From Sekai Require Import Base.Prelude.\nDefinition durations_error_returned : bool := false.\n"
-            "Definition router_apply_on_cache_written_iff_ok : bool := true.\n")
+            "Definition router_apply_on_cache_written_iff_ok : bool := true.\n"
+            "Definition quorum_error_panics_flag : bool := false.\nDefinition dynamic_veto_from_allowed : bool := false.\n")
     R.coq_files(FILES)
     R.coq_property()
     R.audit()
